@@ -1,6 +1,7 @@
 package main
 
 import (
+	"io"
 	"github.com/ipfs/go-cid"
 	mh "github.com/multiformats/go-multihash"
 	"bytes"
@@ -35,18 +36,28 @@ func runInspect(input []byte, ro readOpts, full bool) string {
 		return "r=" + classify(err)
 	}
 	st, err := r.Inspect(full)
+	// the same Reader asked again (also after Roots and a payload reader were used) answers the same
+	r.Roots()
+	if dr, derr := r.DataReader(); derr == nil {
+		io.CopyN(io.Discard, dr, 7)
+	}
+	st2, err2 := r.Inspect(full)
+	again := ""
+	if (err == nil) != (err2 == nil) || (err == nil && fmt.Sprint(st) != fmt.Sprint(st2)) {
+		again = " again=differs"
+	}
 	if err != nil {
 		c := classify(err)
 		if strings.Contains(err.Error(), "section length shorter than CID length") {
 			c = "other"
 		}
-		return "r=" + c
+		return "r=" + c + again
 	}
 	h := st.Header
 	return fmt.Sprintf("r=ok v=%d hdr=%d.%d.%d.%d.%d roots=%s rp=%d n=%d cid=%d.%d.%d blk=%d.%d.%d codecs=%s mh=%s idx=%d",
 		st.Version, h.Characteristics.Hi, h.Characteristics.Lo, h.DataOffset, h.DataSize, h.IndexOffset, cidsStr(st.Roots),
 		b2i(st.RootsPresent), st.BlockCount, st.MinCidLength, st.AvgCidLength, st.MaxCidLength,
-		st.MinBlockLength, st.AvgBlockLength, st.MaxBlockLength, countsStr(st.CodecCounts), countsStr(st.MhTypeCounts), uint64(st.IndexCodec))
+		st.MinBlockLength, st.AvgBlockLength, st.MaxBlockLength, countsStr(st.CodecCounts), countsStr(st.MhTypeCounts), uint64(st.IndexCodec)) + again
 }
 
 // hashKindArchives: a valid two-block archive per hash function / digest length of the alphabet
